@@ -75,6 +75,7 @@ Theorem messages_wf :
   (forall k s, wf_fmt (fmt_ServerKeyExchange k s)) /\ (forall k b, wf_fmt (fmt_ClientKeyExchange k b)) /\
   (forall n, 0 <= n -> wf_fmt (fmt_Finished n)) /\ wf_fmt fmt_NextProtocol /\
   wf_fmt fmt_NewSessionTicket13 /\ wf_fmt fmt_NewSessionTicket10 /\ wf_fmt fmt_SessionTicketPayload /\
+  wf_fmt fmt_CompressedCertificate /\ wf_fmt fmt_RecordHeader2 /\ wf_fmt fmt_ClientHelloSSL2 /\
   (forall c, wf_fmt (fmt_Ext c) /\ delim (fmt_Ext c)).
 Proof. exact messages_wf_top. Qed.
 
